@@ -29,7 +29,7 @@ RULE = (
     "and reflected forms are representation-identical to poly_divide/poly_remainder/poly_divmod. "
     "non-trivial = the monitor saw >= 2 candidate searches (>= 1 subtraction step) and the divisor is not constant."
 )
-LEVEL_TEXT += (" Operands that share one name tuple stored out of index order (symbols('q1,q0'), set_dimensions) form their own class; numpy scalars on the left of / % divmod are generated too (known finding).")
+LEVEL_TEXT += (" Operands that share one name tuple stored out of index order (symbols('q1,q0'), set_dimensions) form their own class; numpy scalars on the left of / % divmod are generated too (known finding). A class of half / single precision operands whose quotient coefficients leave the half-precision range (divided in double precision).")
 ASSUMPTIONS = [
     "float comparison tolerance 1e-8 * max(1, coefficient magnitude bound)",
     "for a zero divisor element only the identity is required",
@@ -39,7 +39,8 @@ ASSUMPTIONS = [
 
 NAMES = ["q0", "q1", "q2"]
 CLASSES = ["random", "exact-multiple", "multiple-plus-remainder", "constant-divisor", "univariate",
-           "incomparable-top", "per-element-leading", "number-on-the-left", "unordered-names", "divisor-only-name"]
+           "incomparable-top", "per-element-leading", "number-on-the-left", "unordered-names", "divisor-only-name",
+           "narrow-float"]
 SPELL = ["function", "function", "operators", "reflected"]
 
 
@@ -93,6 +94,18 @@ def case_st(draw):
         case["divisor"] = {"names": [dn, other], "shape": [n], "kind": "f", "retain": False,
                            "terms": [[[1, 0], lead], [[0, 1], oth], [[0, 0], const]]}
         case["opts"] = draw(st.sampled_from([{"retain_names": False}, {"retain_names": False}, {}]))
+        return case
+    if cls == "narrow-float":
+        # half and single precision operands (all values exact in that width) whose quotient coefficients leave
+        # the half-precision range: the quotient is a double, the division must end and be right
+        n = draw(st.sampled_from(NAMES))
+        dt = draw(st.sampled_from(["float16", "float16", "float32"]))
+        c = draw(st.sampled_from([60000, 40000, 32768, 2048]))
+        d0 = draw(st.sampled_from([4, 8, -4, 12]))
+        case["dividend"] = {"names": [n], "shape": [], "kind": "f", "dtype": dt, "retain": False,
+                            "terms": [[[2], [c * 4]], [[1], [4]]] + ([[[0], [draw(st.sampled_from([4, -8, 20]))]]] if draw(st.booleans()) else [])}
+        case["divisor"] = {"names": [n], "shape": [], "kind": "f", "dtype": dt, "retain": False,
+                           "terms": [[[1], [1]], [[0], [d0]]]}
         return case
     if cls == "unordered-names":
         # both operands carry the same name tuple in non-index order and are linear in both indeterminates,
